@@ -417,6 +417,39 @@ def classes_for(ncls, thorough):
     return sorted(c for c in cs if -1 <= c <= ncls - 1)
 
 
+BEYOND = {"deg": 200.0, "rad": 200.0, "chord": 2.5}  # ball trees on spherical coordinates document r in degrees
+
+
+def radius_cases(pl, runit, thorough, system, order, unit, coords, rep):
+    """The radius cases of TLC's plan as (r, entry fields, label, coordinates to pass)."""
+    ncls = max(pl["cls"]) + 1
+    keep = set(classes_for(ncls, thorough))
+    for rc in pl["radii"]:
+        t = rc["t"]
+        if t == "between":
+            if rc["c"] not in keep:
+                continue
+            r = X.radius_for(pl, runit, rc["c"])
+            if r is not None:
+                yield r, {"c": rc["c"]}, "class %d" % rc["c"], coords
+        elif t == "zero":
+            yield 0.0, {"rk": "zero"}, "zero", coords
+            if pl["zero"]:
+                # the coincident element's own stored coordinates: bit-identical to what the tree holds
+                e0 = pl["zero"][0]
+                xyz, lon, lat = rep
+                if system == "cartesian":
+                    own = [float(x) for x in xyz[e0]]
+                else:
+                    pair = [lon[e0], lat[e0]] if order == "lonlat" else [lat[e0], lon[e0]]
+                    own = [float(x) for x in (np.deg2rad(np.array(pair)) if unit == "rad" else pair)]
+                yield 0.0, {"rk": "zero", "own": True}, "zero,own", own
+        elif t == "tiny":
+            yield 1e-9, {"rk": "tiny"}, "tiny", coords
+        elif t == "beyond":
+            yield BEYOND[runit], {"rk": "beyond"}, "beyond", coords
+
+
 def call_query(tree, system, h, coords, k, unit, return_distance=True):
     kw = {"k": k, "return_distance": return_distance}
     if system == "spherical":
@@ -428,6 +461,22 @@ def call_radius(tree, system, h, coords, r, unit, **kw):
     if system == "spherical":
         kw["in_radians"] = unit == "rad"
     return h.query_radius(coords, r=r, **kw)
+
+
+def radius_sig(ent, cfg, pl):
+    """Signature fields of a failed radius answer: the radius kind and, for haversine radii beyond half a
+    turn, whether the answer is exactly what a reduced distance sin^2(r/2) that decreases again past
+    180 degrees would give (elements nearer than 360 degrees - r)."""
+    if ent["m"] not in ("rad", "srad", "cnt"):
+        return {}
+    out = {"rk": ent.get("rk", "between")}
+    if out["rk"] == "beyond" and cfg == "ball/spherical/haversine":
+        lim = 2 * math.pi - math.radians(BEYOND["deg"])
+        ang = [X.angle_of(d) for d in pl["descr"]]
+        if not any(abs(a - lim) < 1e-6 for a in ang):
+            inside = sorted(e for e, a in enumerate(ang) if a < lim)
+            out["wrap_explains"] = (ent["n"] == len(inside)) if ent["m"] == "cnt" else (sorted(ent["res"]) == inside)
+    return out
 
 
 def run_group(grp):
@@ -467,8 +516,9 @@ def run_group(grp):
         units = ["deg", "rad"] if system == "spherical" else ["xyz"]
         full_k = thorough and ci == 0
         ks = ks_for(n, thorough, full_k)
+        rep = X.reported(g, kind, system)
         if not exact:
-            xyz, lon, lat = X.reported(g, kind, system)
+            xyz, lon, lat = rep
             built = np.stack([np.deg2rad(lat), np.deg2rad(lon)], axis=-1) if system == "spherical" else xyz
         for unit in units:
             dunit = ("deg" if unit == "deg" else "rad") if system == "spherical" else "chord"
@@ -520,44 +570,44 @@ def run_group(grp):
                             errors.append({"cfg": cfgname, "call": "query nodist " + base, "error": "%s: %s" % (type(e).__name__, str(e)[:160])})
                     if vname:
                         continue
-                    # ---- radius
+                    # ---- radius: the cases TLC planned (boundary radii included)
                     if exact:
-                        ncls = max(pl["cls"]) + 1
-                        for c in classes_for(ncls, thorough):
-                            r = X.radius_for(pl, runit, c)
-                            if r is None:
-                                continue
-                            rtag = base + "|r=%.6g(class %d)" % (r, c)
+                        for r, extra, label, rcoords in radius_cases(pl, runit, thorough, system, order, unit, coords, rep):
+                            rtag = base + "|r=%.6g(%s)" % (r, label)
                             try:
-                                ind = X.flat_int(call_radius(tree, system, h, coords, r, unit))
-                                add(cid, rtag + "|rad", {"m": "rad", "c": c, "res": ind})
-                                d, ind2 = call_radius(tree, system, h, coords, r, unit, return_distance=True, sort_results=True)
+                                ind = X.flat_int(call_radius(tree, system, h, rcoords, r, unit))
+                                add(cid, rtag + "|rad", dict(extra, m="rad", res=ind))
+                                d, ind2 = call_radius(tree, system, h, rcoords, r, unit, return_distance=True, sort_results=True)
                                 ind2, d = X.flat_int(ind2), X.flat_float(d)
-                                add(cid, rtag + "|srad", {"m": "srad", "c": c, "res": ind2})
+                                add(cid, rtag + "|srad", dict(extra, m="srad", res=ind2))
                                 bad = X.dist_errors(pl, dunit, ind2, d) if len(d) == len(ind2) else [("len", len(d), len(ind2))]
                                 if bad:
                                     num.append({"clause": "DistanceUnit", "tag": rtag + "|srad", "cfg": cfgname, "unit": unit, "mode": "radius", "detail": bad[:3]})
-                                cnt = X.flat_int(call_radius(tree, system, h, coords, r, unit, count_only=True))
-                                add(cid, rtag + "|cnt", {"m": "cnt", "c": c, "n": cnt[0] if len(cnt) == 1 else -1})
+                                cnt = X.flat_int(call_radius(tree, system, h, rcoords, r, unit, count_only=True))
+                                add(cid, rtag + "|cnt", dict(extra, m="cnt", n=cnt[0] if len(cnt) == 1 else -1))
                             except Exception as e:  # noqa
                                 errors.append({"cfg": cfgname, "call": "query_radius " + rtag, "error": "%s: %s" % (type(e).__name__, str(e)[:160])})
                     else:
                         srt = np.sort(fd)
                         gaps = [i for i in range(len(srt) - 1) if srt[i + 1] - srt[i] > 1e-6]
-                        for gi in sorted(set(gaps[:2] + gaps[len(gaps) // 2 : len(gaps) // 2 + 1])):
-                            r_rad = (srt[gi] + srt[gi + 1]) / 2.0
+                        frad = [(0.0, "zero"), (1e-7, "tiny")] + [((srt[gi] + srt[gi + 1]) / 2.0, "between") for gi in sorted(set(gaps[:2] + gaps[len(gaps) // 2 : len(gaps) // 2 + 1]))] + [(float(srt[-1]) + 1.0, "beyond")]
+                        for r_rad, rk in frad:
                             # the radius in the unit in which this mode reports distances
                             r = r_rad * sc
-                            rtag = base + "|r=%.6g" % r
+                            rtag = base + "|r=%.6g(%s)" % (r, rk)
                             try:
                                 d, ind = call_radius(tree, system, h, coords, r, unit, return_distance=True, sort_results=True)
                                 ind, d = X.flat_int(ind), X.flat_float(d)
                                 nfloat += 1
                                 f = X.float_radius_failed(fd, r_rad, ind)
+                                cnt = X.flat_int(call_radius(tree, system, h, coords, r, unit, count_only=True))
+                                plain = X.flat_int(call_radius(tree, system, h, coords, r, unit))
+                                if cnt != [len(ind)] or sorted(plain) != sorted(ind):
+                                    num.append({"clause": "RadiusCount", "tag": rtag, "cfg": cfgname, "unit": unit, "mode": "radius", "rk": rk, "detail": {"count_only": cnt, "with_distances": len(ind), "plain": len(plain)}})
                                 if f:
                                     as_rad = not X.float_radius_failed(fd, r, ind)
                                     over = [x for x in d if x > r + 1e-9 * sc]
-                                    num.append({"clause": "RadiusUnit" if (sc != 1.0) else sorted(f)[0], "tag": rtag, "cfg": cfgname, "unit": unit, "mode": "radius", "answer_is_r_in_radians": bool(as_rad), "detail": {"r": r, "returned_distances_above_r": over[:3], "n_returned": len(ind), "n_expected": int(np.sum(fd <= r_rad)), "failed": sorted(f)}})
+                                    num.append({"clause": "RadiusUnit" if (sc != 1.0) else sorted(f)[0], "tag": rtag, "cfg": cfgname, "unit": unit, "mode": "radius", "rk": rk, "answer_is_r_in_radians": bool(as_rad), "detail": {"r": r, "returned_distances_above_r": over[:3], "n_returned": len(ind), "n_expected": int(np.sum(fd <= r_rad)), "failed": sorted(f)}})
                                 elif len(d) != len(ind) or any(abs(fd[a] * sc - dv) > 1e-8 * sc for a, dv in zip(ind, d)):
                                     num.append({"clause": "DistanceUnit", "tag": rtag, "cfg": cfgname, "unit": unit, "mode": "radius", "detail": {"d": d[:4]}})
                             except Exception as e:  # noqa
@@ -598,6 +648,12 @@ def run_group(grp):
                         c = X.class_of_radius(grp["plans"][cid], runit, r)
                         if c is not None:
                             add(cid, "%s|%s|batched|q=%s|r=%.6g(class %d)|rad" % (cfgname, unit, q, r, c), {"m": "rad", "c": c, "res": X.flat_int(res[qi])})
+                    res0 = call_radius(tree, system, h, pres, 0.0, unit)
+                    cnt0 = X.flat_int(call_radius(tree, system, h, pres, 0.0, unit, count_only=True))
+                    for qi, q in enumerate(qs):
+                        cid = "%s|%s|%s|%s|%d" % (grp["gid"], variant, kind, sg, qi)
+                        add(cid, "%s|%s|batched|q=%s|r=0(zero)|rad" % (cfgname, unit, q), {"m": "rad", "rk": "zero", "res": X.flat_int(res0[qi])})
+                        add(cid, "%s|%s|batched|q=%s|r=0(zero)|cnt" % (cfgname, unit, q), {"m": "cnt", "rk": "zero", "n": cnt0[qi] if len(cnt0) == len(qs) else -1})
                 except Exception as e:  # noqa
                     errors.append({"cfg": cfgname, "call": "query_radius batched %s" % unit, "error": "%s: %s" % (type(e).__name__, str(e)[:160])})
     return {"gid": grp["gid"], "variant": variant, "kind": kind, "ents": ents, "tags": tags, "num": num, "errors": errors, "float_entries": nfloat}
@@ -721,10 +777,10 @@ def queries(ctx, rng):
             tag = tags["%s#%d" % (cid, j)]
             ent = ent_index[(cid, j)]
             cfg, unit, mode = tag.split("|")[0], tag.split("|")[1], tag.split("|")[2]
-            ctx.violation("%s::%s" % (cid, tag), clause, detail={"answer": ent, "lt": plans[cid]["lt"]}, replay={"grid": cid.split("|")[0], "variant": cid.split("|")[1], "kind": cid.split("|")[2], "q": c["q"], "S": c["S"], "call": tag, "answer": ent}, sig={"cfg": cfg, "unit": unit, "presentation": mode, "mode": ent["m"], "xyz_matches_lonlat": xyz_of["|".join(cid.split("|")[:3])]})
+            ctx.violation("%s::%s" % (cid, tag), clause, detail={"answer": ent, "lt": plans[cid]["lt"]}, replay={"grid": cid.split("|")[0], "variant": cid.split("|")[1], "kind": cid.split("|")[2], "q": c["q"], "S": c["S"], "call": tag, "answer": ent}, sig=dict({"cfg": cfg, "unit": unit, "presentation": mode, "mode": ent["m"], "xyz_matches_lonlat": xyz_of["|".join(cid.split("|")[:3])]}, **radius_sig(ent, cfg, plans[cid])))
     for r in res:
         for nf in r["num"]:
-            sig = {"cfg": nf["cfg"], "unit": nf["unit"], "mode": nf["mode"], "xyz_matches_lonlat": xyz_of["%s|%s|%s" % (r["gid"], r["variant"], r["kind"])]}
+            sig = {"cfg": nf["cfg"], "unit": nf["unit"], "mode": nf["mode"], "rk": nf.get("rk", "-"), "xyz_matches_lonlat": xyz_of["%s|%s|%s" % (r["gid"], r["variant"], r["kind"])]}
             if "answer_is_r_in_radians" in nf:
                 sig["answer_is_r_in_radians"] = nf["answer_is_r_in_radians"]
             ctx.violation("%s|%s|%s::%s" % (r["gid"], r["variant"], r["kind"], nf["tag"]), nf["clause"], detail=nf["detail"], replay={"grid": r["gid"], "variant": r["variant"], "kind": r["kind"], "call": nf["tag"]}, sig=sig)
